@@ -420,24 +420,26 @@ def twosample_schroer_and_trenkler_twosided_pvalue [SF α] (d : α) (m n : Int) 
     | none => panicV
   (1.0 : α) - (valid_paths / total_paths)
 
-/-- src/stats_tests/ks_test.rs:454-457 — `while i < n1 && &data1[i] == x { f1 += 1.0 / n1; i += 1; }`
-    on the not yet consumed suffix `rest = data1[i..]` -/
-def ks_twosample.advance (x inc : α) : List α → α → List α × α
-  | [], f => ([], f)
-  | a :: rest, f =>
-    if (a == x) = true then ks_twosample.advance x inc rest (f + inc) else (a :: rest, f)
+/-- src/stats_tests/ks_test.rs:453-458 — `while i < n1 && &data1[i] == x { i += 1; }` on the not yet consumed suffix
+    `rest = data1[i..]`; `c` is the count `i` (since 5af6953: no running sum of `1/n`) -/
+def ks_twosample.advance (x : α) : List α → Int → List α × Int
+  | [], c => ([], c)
+  | a :: rest, c =>
+    if (a == x) = true then ks_twosample.advance x rest (c + (1 : Int)) else (a :: rest, c)
 
-/-- src/stats_tests/ks_test.rs:453-464 — one iteration of `for x in data_all.iter()`;
-    state `((rest1, f1), ((rest2, f2), (d_plus, d_minus)))` -/
-def ks_twosample.step (n1 n2 : α) (st : (List α × α) × ((List α × α) × (α × α))) (x : α) :
-    (List α × α) × ((List α × α) × (α × α)) :=
-  let s1 := ks_twosample.advance x ((1.0 : α) / n1) st.1.1 st.1.2
-  let s2 := ks_twosample.advance x ((1.0 : α) / n2) st.2.1.1 st.2.1.2
-  let d_plus := RFun.fmax st.2.2.1 (s1.2 - s2.2)
-  let d_minus := RFun.fmax st.2.2.2 (s2.2 - s1.2)
+/-- src/stats_tests/ks_test.rs:452-466 — one iteration of `for x in data_all.iter()`;
+    state `((rest1, i), ((rest2, j), (d_plus, d_minus)))`; `f1 = i as f64 / n1`, `f2 = j as f64 / n2` -/
+def ks_twosample.step (n1 n2 : α) (st : (List α × Int) × ((List α × Int) × (α × α))) (x : α) :
+    (List α × Int) × ((List α × Int) × (α × α)) :=
+  let s1 := ks_twosample.advance x st.1.1 st.1.2
+  let s2 := ks_twosample.advance x st.2.1.1 st.2.1.2
+  let f1 := (RFun.ofInt s1.2 : α) / n1
+  let f2 := (RFun.ofInt s2.2 : α) / n2
+  let d_plus := RFun.fmax st.2.2.1 (f1 - f2)
+  let d_minus := RFun.fmax st.2.2.2 (f2 - f1)
   (s1, (s2, (d_plus, d_minus)))
 
-/-- the statistics `(d_plus, d_minus)` of `ks_twosample` (src/stats_tests/ks_test.rs:431-464) for
+/-- the statistics `(d_plus, d_minus)` of `ks_twosample` (src/stats_tests/ks_test.rs:431-466) for
     NaN-free samples -/
 def ks_twosample.stats (data1 data2 : List α) : α × α :=
   let n1 := (RFun.ofInt (listLen data1) : α)
@@ -447,7 +449,7 @@ def ks_twosample.stats (data1 data2 : List α) : α × α :=
   -- let mut data_all = [data1.clone(), data2.clone()].concat(); data_all.sort_by(..); data_all.dedup();
   let data_all := dedup (sortBy (fun a b => decide (a ≤ b)) (data1 ++ data2))
   (data_all.foldl (ks_twosample.step n1 n2)
-    ((data1, (0.0 : α)), ((data2, (0.0 : α)), ((0.0 : α), (0.0 : α))))).2.2
+    ((data1, (0 : Int)), ((data2, (0 : Int)), ((0.0 : α), (0.0 : α))))).2.2
 
 /-- src/stats_tests/ks_test.rs:382 — `ks_twosample` -/
 def ks_twosample [SF α] (data1 data2 : List α) (method : KSTwoSampleAlternativeMethod)
